@@ -165,7 +165,9 @@ pub fn run_c04(ctx: &Ctx, rep: &mut Report) {
     let corpus = corpus_positions();
     let n = ctx.budget(8000, 80_000, 2, 300);
     ctx.cases(rep, "play", n, |gid, rng, rep| {
-        let start = match rng.below(4) {
+        let start = match rng.below(6) {
+            4 => synth::scenario_retry(rng, 17).unwrap_or_else(|| Start::plain(RPos::startpos(), "corpus")),
+            5 => synth::scenario_retry(rng, 18).unwrap_or_else(|| Start::plain(RPos::startpos(), "corpus")),
             0 => synth::scenario_retry(rng, 11).unwrap_or_else(|| Start::plain(RPos::startpos(), "corpus")),
             1 => Start::plain(synth::synth(rng, Density::Sparse), "synth_sparse"),
             2 => mixed_start(rng, gid, &corpus),
